@@ -94,6 +94,17 @@ CLAIMS = {
         design="6 C16",
         technique="explicit TLA+ spec + TLC model checking; TLC-enumerated scripts replayed on the code both ways and judged by TLC",
     ),
+    "C07": dict(
+        spec="FsErrors.tla / FsErrorsGen.tla / FsErrorsJudge.tla",
+        text="TLC model-checks the failure specification (ErrClass: only the Snowflake errors of the property's table, 90105/90106 "
+        "exactly when context is missing; FailFrame: a failing statement is a stutter on data, catalog, context, variables and "
+        "pending transaction work; sqlstate lifecycle; closed connection => 250002/08003) over session state x transaction x "
+        "variable x 33 failure causes x qualification level x cursor (incl. cursor.describe), generates every transition and "
+        "walks with interleaved failures, replays them on real connections (state re-observed after every step through other "
+        "cursors and a raw engine cursor) and judges every step with TLC.",
+        design="6 C07",
+        technique="explicit TLA+ spec + TLC model checking; TLC-generated histories replayed on the code and judged by TLC (trace validation)",
+    ),
 }
 
 
